@@ -16,8 +16,8 @@ LEVEL_TEXT = (
     'discards work when closed; the visitor is called for every evaluated job with a path derived '
     'from that job. Does not compute that the visited set equals the reachable set for a given model.')
 
-FLOORS = {'C01-R1': 3, 'C01-R2': 3, 'C01-R3': 15, 'C01-R4': 5, 'C01-R5': 3, 'C01-R6': 12,
-          'C01-R7': 5, 'C01-R8': 6}
+FLOORS = {'C01-R1': 3, 'C01-R2': 3, 'C01-R3': 12, 'C01-R4': 5, 'C01-R5': 3, 'C01-R6': 12,
+          'C01-R7': 5, 'C01-R8': 6, 'C01-R9': 3}
 
 
 def new_edges(cb):
@@ -53,7 +53,7 @@ def r1_r2(ctx, cb):
                   (cb.strat, [h.span for h in hit], fmt_edges(ne)))
     # R2: marked visited => enqueued
     head = loop_head(cb)
-    r2 = b.reach([e[1] for e in ne], cut_blocks=[e.bb for e in cb.enq])
+    r2 = b.reach(cb.marked, cut_blocks=[e.bb for e in cb.enq])
     lost = []
     if head.bb in r2:
         lost.append('next successor (bb%d)' % head.bb)
@@ -73,14 +73,14 @@ def r3_boundary(ctx, F, cb):
     rule = 'C01-R3'
     starts = [e[1] for e in cb.succ_some]
     for what, blocks in (('enqueue', [e.bb for e in cb.enq]),
-                         ('arbitration', [c.bb for (c, n, s_) in cb.arb]),
-                         ('state_count', [cb.fetch_add.bb])):
+                         ('arbitration', [c.bb for (c, n, s_) in cb.arb] if cb.arb_atomic else
+                          [c.bb for c in b.calls_to('DashMap::insert', 'DashSet::insert')
+                           if is_arg(b.val(c.args[0]), cb.p_generated)])):
         ok = all(b.edges_dominate(cb.wb_true, x, frm=starts) for x in blocks)
         ctx.check(ok and bool(cb.wb_true), rule, '%s-after-boundary' % what, b,
                   good='%s is control-dependent on within_boundary(successor)=true' % what,
                   bad='%s: %s is reachable from a successor without within_boundary returning true: '
-                      'out-of-boundary states are %s' % (cb.strat, what,
-                                                         'explored' if what != 'state_count' else 'counted'))
+                      'out-of-boundary states are explored' % (cb.strat, what))
     # argument of within_boundary is the successor
     sv = succ_value(cb)
     wv = noref(b.val(cb.wb.args[1]))
@@ -324,16 +324,16 @@ def r5_all_actions(ctx, cb):
 def r6_counters(ctx, F, cb):
     b = cb.b
     rule = 'C01-R6'
-    arbs = [c.bb for (c, n, s_) in cb.arb]
-    ok = all(b.dominates(cb.fetch_add.bb, x) or not b.edges_dominate([], x) for x in arbs)
-    # with two alternative arbitration sites (symmetry on/off) dominance is per-site
-    ok = all(b.dominates(cb.fetch_add.bb, x) for x in arbs)
+    new_targets = cb.marked
+    r = b.reach([e[1] for e in cb.succ_some], cut_blocks=[c.bb for c in cb.fetch_adds])
+    ok = bool(new_targets) and not any(x in r for x in new_targets)
     ctx.check(ok, rule, 'count-before-arbitration', b,
-              good='state_count.fetch_add dominates the visited-set arbitration',
+              good='every successor that can be newly inserted has been counted in state_count first',
               bad='%s: state_count is not incremented before every visited-set arbitration: '
                   'state_count can fall below unique_state_count' % cb.strat)
-    one = b.val(cb.fetch_add.args[1])
-    ctx.check(one.kind == 'const' and one.key == 1, rule, 'count-by-one', b,
+    ones = [b.val(c.args[1]) for c in cb.fetch_adds]
+    one = ones[0]
+    ctx.check(all(o.kind == 'const' and o.key == 1 for o in ones), rule, 'count-by-one', b,
               good='state_count incremented by 1', bad='%s: state_count increment is %r' % (cb.strat, one))
     sp = Spawn(F, cb.strat)
     s = sp.b
@@ -553,3 +553,7 @@ def run(ctx):
             r8_visitor(ctx, F, CB(F, strat))
     with ctx.rule('C01-R7', 'job_market'):
         r7_market(ctx, F)
+    import c05
+    ctx.doc('C01-R9', 'the visited set is only touched through single-call (atomic) insert-if-absent '
+                      'arbitration, so no state is enqueued by two workers')
+    c05.r8_atomic_arbitration(ctx, F, rule='C01-R9')
